@@ -1,3 +1,10 @@
+import RichModel.Model.ConsoleLog
+import RichModel.Model.ConsolePrint
+import RichModel.Model.FramesStyled
+import RichModel.Model.FramesTitle
+import RichModel.Model.SyntaxWrap
+import RichModel.Model.ThemeThreads
+import RichModel.Model.TotalityPrint
 import RichModel.Model.Ansi
 import RichModel.Model.AnsiRender
 import RichModel.Model.AnsiTerm
